@@ -183,6 +183,60 @@ fn check_list_ops(cx: &mut Ctx, t: &T, out: &mut CaseOut) {
     }
 }
 
+/// `term == value` for the convenience impls (bool, isize, char, String, str, &str, LValue), in both
+/// directions, for `LTerm` and for `LResult` (a query result wrapping the term): true exactly when
+/// the term is that literal.
+fn check_value_eq(t: &T, l: &L, out: &mut CaseOut) {
+    use proto_vulcan::lresult::LResult;
+    use proto_vulcan::lvalue::LValue;
+    use proto_vulcan::state::constraint::store::ConstraintStore;
+    let res: LResult<U, E> = LResult(l.clone(), std::rc::Rc::new(ConstraintStore::new()));
+    let input = format!("{}", t);
+    let mut bad = |what: String| {
+        out.violate("M-model", "comparison of a term with a Rust value disagrees with the term being that literal", what, input.clone());
+    };
+    let mut n = 0u64;
+    for b in [true, false] {
+        let m = *t == T::Bool(b);
+        n += 1;
+        let got = [*l == b, b == *l, res == b, b == res, *l == LValue::Bool(b), LValue::Bool(b) == *l, res == LValue::Bool(b), LValue::Bool(b) == res];
+        if got.iter().any(|g| *g != m) {
+            bad(format!("{} vs bool {}: {:?}, model {}", t, b, got, m));
+        }
+    }
+    for i in [-1isize, 0, 1, 2, 3, 7] {
+        let m = *t == T::Int(i as i64);
+        n += 1;
+        let got = [*l == i, i == *l, res == i, i == res, *l == LValue::Number(i), LValue::Number(i) == *l, res == LValue::Number(i), LValue::Number(i) == res];
+        if got.iter().any(|g| *g != m) {
+            bad(format!("{} vs isize {}: {:?}, model {}", t, i, got, m));
+        }
+    }
+    for c in ['a', 'b', 'x'] {
+        let m = *t == T::Char(c);
+        n += 1;
+        let got = [*l == c, c == *l, res == c, c == res, *l == LValue::Char(c), LValue::Char(c) == *l, res == LValue::Char(c), LValue::Char(c) == res];
+        if got.iter().any(|g| *g != m) {
+            bad(format!("{} vs char {:?}: {:?}, model {}", t, c, got, m));
+        }
+    }
+    for s in ["", "a", "s", "a b", "true", "1"] {
+        let m = *t == T::Str(s.to_string());
+        n += 1;
+        let owned = s.to_string();
+        let got = [*l == s, s == *l, *l == *s, *s == *l, *l == owned, owned == *l, res == s, s == res, res == owned, owned == res, *l == LValue::String(owned.clone()), LValue::String(owned.clone()) == *l];
+        if got.iter().any(|g| *g != m) {
+            bad(format!("{} vs str {:?}: {:?}, model {}", t, s, got, m));
+        }
+    }
+    // LResult against LTerm
+    n += 1;
+    if !(res == *l && *l == res) {
+        bad(format!("{}: LResult == LTerm of the same term is false", t));
+    }
+    out.count("value_comparisons_checked", n);
+}
+
 fn check_list_ops_inner(cx: &mut Ctx, t: &T, out: &mut CaseOut) {
     let l = cx.l(t);
     let s = seq(t);
@@ -192,6 +246,8 @@ fn check_list_ops_inner(cx: &mut Ctx, t: &T, out: &mut CaseOut) {
     if !(l == l.clone()) {
         viol(out, "LTerm == is not reflexive", input.clone(), input.clone());
     }
+    // comparisons with Rust values, from both sides, for LTerm, LValue-wrapped values and LResult
+    check_value_eq(t, &l, out);
     // classification
     let exp = (matches!(t, T::Cons(..) | T::Nil), *t == T::Nil, is_improper(t));
     let got = (l.is_list(), l.is_empty(), l.is_improper());
@@ -353,7 +409,7 @@ impl Check for C21 {
         false
     }
     fn rule(&self) -> &'static str {
-        "'pairs' (enumerated, seed-independent): every ordered pair of the terms of depth <= 1 (and selected depth-2 shapes: proper/improper twins with the same element sequence, nested lists, improper lists inside lists, Triple) over all four literal kinds, two variables, [], proper and improper lists and the compound types Pair, Named, tuple, Some; the second term is built independently (different Rc cells): == must equal structural equality in both directions, equal terms must have equal hashes under a fixed-key hasher, contains must follow the element sequence. Every term: reflexivity, is_list/is_empty/is_improper, iter and &-IntoIterator vs the element sequence (improper tail as final element), head/tail, Index incl. out-of-range (must panic like Vec), list Display vs a Vec-based printer, from_vec/from_array/collect/improper_from_vec/improper_from_array round trips with ==/hash agreement across constructors, an improper list must differ from the proper list with the same elements, extend vs Vec::extend (and must not change a clone), iter_mut (visits exactly the elements, updates in place, does not change a clone), IndexMut, extend on a non-list must panic. 'random': the same on random terms to depth 3 and random pairs. Distinct = distinct term (pair) text; non-trivial = every case."
+        "'pairs' (enumerated, seed-independent): every ordered pair of the terms of depth <= 1 (and selected depth-2 shapes: proper/improper twins with the same element sequence, nested lists, improper lists inside lists, Triple) over all four literal kinds, two variables, [], proper and improper lists and the compound types Pair, Named, tuple, Some; the second term is built independently (different Rc cells): == must equal structural equality in both directions, equal terms must have equal hashes under a fixed-key hasher, contains must follow the element sequence. Every term: reflexivity, comparison with Rust values (bool, isize, char, String, str, &str, LValue) from both sides for LTerm and for an LResult wrapping it (true exactly when the term is that literal), is_list/is_empty/is_improper, iter and &-IntoIterator vs the element sequence (improper tail as final element), head/tail, Index incl. out-of-range (must panic like Vec), list Display vs a Vec-based printer, from_vec/from_array/collect/improper_from_vec/improper_from_array round trips with ==/hash agreement across constructors, an improper list must differ from the proper list with the same elements, extend vs Vec::extend (and must not change a clone), iter_mut (visits exactly the elements, updates in place, does not change a clone), IndexMut, extend on a non-list must panic. 'random': the same on random terms to depth 3 and random pairs. Distinct = distinct term (pair) text; non-trivial = every case."
     }
     fn assumptions(&self) -> Vec<String> {
         vec!["model: the harness's own term type with derived structural equality; Vec for sequences".into(), "Display is compared for lists of literals/variables only (compound Display is Debug-based)".into()]
@@ -365,7 +421,7 @@ impl Check for C21 {
         }
     }
     fn required_counters(&self) -> Vec<&'static str> {
-        vec!["eq_pairs_checked", "equal_pairs_hash_checked", "terms_checked_list_ops", "displays_checked", "extends_checked", "proper_improper_twins_checked", "out_of_range_index_panics_like_vec", "extend_on_non_list_panics"]
+        vec!["eq_pairs_checked", "value_comparisons_checked", "equal_pairs_hash_checked", "terms_checked_list_ops", "displays_checked", "extends_checked", "proper_improper_twins_checked", "out_of_range_index_panics_like_vec", "extend_on_non_list_panics"]
     }
     fn miri_lane(&self, tier: Tier) -> Option<(Vec<(&'static str, u64, u64)>, bool)> {
         // thorough only: the same run_case code interpreted by Miri (Rc::make_mut / copy-on-write paths)
